@@ -6,6 +6,6 @@ export CARGO_NET_OFFLINE=true
 mkdir -p .build evidence replays
 python3 translator/extract.py || echo "translator reported a problem (checks will report it per property)"
 tools/mkcoq.sh
-( cd coq && ulimit -v 12000000 && timeout 3000 make -j16 -k COQC='timeout 900 coqc' ) > .build/coq_make.log 2>&1 || tail -30 .build/coq_make.log
+( cd coq && ulimit -v 12000000 && timeout 3000 make -j16 -k COQC='timeout 1500 coqc' ) > .build/coq_make.log 2>&1 || tail -30 .build/coq_make.log
 python3 tools/prebuild.py
 exit 0
